@@ -256,7 +256,7 @@ def w_history(ctx, rng, i):
     d = 2 + (i % 5 == 4)
     K = tx.kinds(d) + ["R2LogR2RBF", "R2LogRRBF", "WeaklyProjectiveHomogeneous", "ScaledHomogeneous"]
     if d == 2 and i % 2 == 0:
-        kind = ["PiecewiseAffine", "PiecewiseAffine", "PythonPWA", "TransformChain", "ThinPlateSplines", "PWA_degenerate_triangle"][(i // 2) % 6]
+        kind = ["PiecewiseAffine", "PiecewiseAffine", "PythonPWA", "TransformChain", "ThinPlateSplines", "PWA_degenerate_triangle", "PWA_unused_vertex"][(i // 2) % 7]
     else:
         kind = K[(i // 2) % len(K)]
     t, recipe = tx.make(rng, kind, d)
@@ -275,7 +275,11 @@ def w_history(ctx, rng, i):
               "readonly_view_of_a_buffer", "single_precision_rounding_of_the_previous", "longer_transform_derived", "sibling_built_from_its_vector"][rng.integers(0, 18)]
         n = n0
         outside = 0.35 if (is_pwa and rng.random() < 0.35) else 0.0
-        if ev == "fresh" or prev is None:
+        if kind == "PWA_unused_vertex" and step == 0:
+            # the very first question put to a fresh warp: where do the source landmarks go (what aligned_source() asks)
+            x = np.array(who.source.points, dtype=float, copy=True)
+            ev = "source_points_first"
+        elif ev == "fresh" or prev is None:
             x = domain_points(rng, who, d, n, outside)
         elif ev == "same_object_edited":
             x = prev
